@@ -1250,6 +1250,15 @@ impl World for IovecWorld {
                     if st.objs[idx].is_some() {
                         let target = targets.contains(&idx);
                         st.check_obj(idx, op.k, target, &mut log, stats).map_err(|f| {
+                            if f.inv == "C05.dangling" {
+                                // Bytes buffered in released memory are not the bytes appended:
+                                // the pipe is not faithful either (and the address check above
+                                // runs before the content comparison would get to say so).
+                                also.borrow_mut().push((i, Fail { prop: "C03", inv: "C03.bytes_in_released_memory", detail: f.detail.clone() }));
+                                if matches!(op.k, "register" | "backfill" | "register_rem" | "badfill") {
+                                    also.borrow_mut().push((i, Fail { prop: "C04", inv: "C04.bytes_in_released_memory", detail: f.detail.clone() }));
+                                }
+                            }
                             // Right after clone/take, or on an object the operation was not
                             // aimed at, any discrepancy is (also) a failure of snapshot
                             // independence.
@@ -1286,8 +1295,13 @@ impl World for IovecWorld {
                 }
                 for idx in 0..N_OBJ {
                     if st.objs[idx].is_some() {
-                        st.check_obj(idx, "drop", false, &mut log, stats)
-                            .map_err(|f| (usize::MAX, f))?;
+                        st.check_obj(idx, "drop", false, &mut log, stats).map_err(|f| {
+                            if f.inv == "C05.dangling" {
+                                also.borrow_mut().push((usize::MAX, Fail { prop: "C03", inv: "C03.bytes_in_released_memory", detail: f.detail.clone() }));
+                                also.borrow_mut().push((usize::MAX, Fail { prop: "C20", inv: "C20.sibling_changed", detail: format!("{} [{}]", f.detail, f.inv) }));
+                            }
+                            (usize::MAX, f)
+                        })?;
                     }
                 }
                 st.check_held(&mut log).map_err(|f| (usize::MAX, f))?;
